@@ -14,7 +14,7 @@ import ast
 import itertools
 
 from ..core import AnalysisError, NotConstant, Repo, Report, call_name, calls_in, class_const, kwarg, module_const, norm, parents_map, walk_local
-from ..dataflow import DefUse
+from ..dataflow import Canon, DefUse
 from ..grammar import load_grammar
 from ..sides import side_flows, slot_side
 from ..sites import guard_chain
@@ -187,22 +187,24 @@ def run(repo: Repo, rep: Report, tier: str) -> None:
              "between them; power puts items[0] left and the recursive result right; unary wraps items[1] under items[0]; `and`/`or` are normalised to &&/||")
     tr = repo.cls("DSLTransformer")
     h = tr.methods["_handle_binary_op_chain"]
+    ch = Canon(h)
     bops = calls_in(h.node, "BinaryOp")
     rep.floor("C01-R2", "BinaryOp constructions in the chain handler", len(bops), 2)
     for c in bops:
-        l, r, o = norm(kwarg(c, "left")), norm(kwarg(c, "right")), norm(kwarg(c, "op"))
+        l, r, o = ch.text(kwarg(c, "left")), ch.text(kwarg(c, "right")), ch.alts(kwarg(c, "op"))
         if l == "items[0]":
-            ok = r == "items[2]" and o == "op"
+            ok = r == "items[2]" and any(x in ("str(items[1])",) for x in o)
+            shape = "three-item form"
         else:
-            ok = l == "result" and r == "right" and o == "op"
-        rep.check(ok, "C01-R2", f"chain handler: BinaryOp(left={l}, right={r})", "left = accumulated, right = next", h.loc(c))
-    du = DefUse(h)
-    ops = {norm(v) for v in du.value_exprs("op")}
-    rights = {norm(v) for v in du.value_exprs("right")}
-    loopinc = [n for n in walk_local(h.node) if isinstance(n, ast.AugAssign) and norm(n.target) == "index"]
-    ok = {"str(items[1])", "str(items[index])"} <= ops and "items[index + 1]" in rights and bool(loopinc) and norm(loopinc[0].value) == "2" \
-        and any(isinstance(n, ast.Assign) and norm(n) == "result = node" for n in walk_local(h.node)) and any(isinstance(n, ast.Assign) and norm(n) == "result = items[0]" for n in walk_local(h.node))
-    rep.check(ok, "C01-R2", "chain handler walks operator/operand pairs left to right and carries the node forward", f"op <- {sorted(ops)}; right <- {sorted(rights)}", h.loc())
+            # loop form: the left child is the loop-carried accumulator (it stands for items[0] or for the node built in the previous round),
+            # the right child is the item after the operator, the operator is the item at the loop index
+            ok = "REC" in l and "items[0]" in l and r.startswith("items[") and r.endswith("+ 1]") and any(x.startswith("str(items[") and x != "str(items[1])" for x in o)
+            shape = "loop form"
+        rep.check(ok, "C01-R2", f"chain handler ({shape}): left = accumulated result, right = next operand, op = the token between them", f"left={l[:60]} right={r[:40]}", h.loc(c))
+    loopinc = [n for n in walk_local(h.node) if isinstance(n, ast.AugAssign) and isinstance(n.op, ast.Add) and isinstance(n.value, ast.Constant) and n.value.value == 2]
+    rets = [ch.text(n.value) for n in walk_local(h.node) if isinstance(n, ast.Return) and n.value is not None]
+    ok = bool(loopinc) and any("REC" in t or "BinaryOp(" in t for t in rets)
+    rep.check(ok, "C01-R2", "chain handler walks operator/operand pairs left to right (index += 2) and returns the accumulated node", f"returns {[t[:40] for t in rets]}", h.loc())
     for level in ("comparison", "bitwise_or", "bitwise_xor", "bitwise_and", "shift", "add", "mul", "logic_or", "logic_and"):
         m = tr.methods.get(level)
         if m is None:
@@ -223,15 +225,14 @@ def run(repo: Repo, rep: Report, tier: str) -> None:
     rep.check(pairs == {"and": "&&", "or": "||"}, "C01-R2", "and -> &&, or -> ||", str(pairs), nl.loc())
     pw = tr.methods["power"]
     c = calls_in(pw.node, "BinaryOp")
-    dup = DefUse(pw)
-    ok = bool(c) and norm(kwarg(c[0], "op")) == "'**'" and norm(kwarg(c[0], "left")) == "left" and norm(kwarg(c[0], "right")) == "right" \
-        and [norm(v) for v in dup.value_exprs("left")] == ["items[0]"] and any("items[2]" in norm(v) for v in dup.value_exprs("right"))
-    rep.check(ok, "C01-R2", "power: items[0] ** (recursive result)", norm(c[0]) if c else "", pw.loc())
+    cpw = Canon(pw)
+    ok = bool(c) and norm(kwarg(c[0], "op")) == "'**'" and cpw.text(kwarg(c[0], "left")) == "items[0]" and "items[2]" in cpw.text(kwarg(c[0], "right"))
+    rep.check(ok, "C01-R2", "power: items[0] ** (recursive result)", f"left={cpw.text(kwarg(c[0], 'left'))} right={cpw.text(kwarg(c[0], 'right'))}" if c else "", pw.loc())
     un = tr.methods["unary"]
     c = calls_in(un.node, "UnaryOp")
-    duu = DefUse(un)
-    ok = bool(c) and [norm(v) for v in duu.value_exprs("op")] == ["str(items[0])"] and [norm(v) for v in duu.value_exprs("expr")] == ["items[1]"]
-    rep.check(ok, "C01-R2", "unary: operator items[0] applied to items[1]", norm(c[0]) if c else "", un.loc())
+    cun = Canon(un)
+    ok = bool(c) and cun.text(kwarg(c[0], "op")) == "str(items[0])" and cun.text(kwarg(c[0], "expr")) == "items[1]"
+    rep.check(ok, "C01-R2", "unary: operator items[0] applied to items[1]", f"op={cun.text(kwarg(c[0], 'op'))} expr={cun.text(kwarg(c[0], 'expr'))}" if c else "", un.loc())
 
     # ---------------- R3 ---------------------------------------------------------------
     rep.rule("C01-R3", "every binary operator literal of the grammar (after and/or normalisation) is in exactly one analyzer category and one lowerer category of the same kind; "
@@ -256,9 +257,8 @@ def run(repo: Repo, rep: Report, tier: str) -> None:
     for mname, builder_fn in (("_lower_arithmetic_op", "arithmetic"), ("_lower_arithmetic_like_op", "arithmetic"), ("_lower_comparison_op", "decider")):
         m = el.methods[mname]
         c = calls_in(m.node, builder_fn)
-        a0 = norm(c[0].args[0]) if c else ""
-        dum = DefUse(m)
-        ok = a0 == "expr.op" or (a0.isidentifier() and any(".get(expr.op, expr.op)" in norm(v) for v in dum.value_exprs(a0)))
+        a0 = Canon(m).text(c[0].args[0]) if c else ""
+        ok = a0 == "expr.op" or a0.endswith(".get(expr.op, expr.op)")
         rep.check(ok, "C01-R3", f"{mname} hands the AST's operator to ir_builder.{builder_fn}", f"first argument {a0}", m.loc(c[0]) if c else m.loc())
     mp = None
     for n in walk_local(el.methods["_lower_arithmetic_like_op"].node):
@@ -276,17 +276,20 @@ def run(repo: Repo, rep: Report, tier: str) -> None:
 
     # ---------------- R4 ---------------------------------------------------------------
     rep.rule("C01-R4", "left/right of the AST node stay left/right: lower_expr(expr.left) -> builder `left` -> IR .left -> placement left_operand -> first_* slot (and right -> second_*)")
-    dul = DefUse(lb)
-    ok = [norm(v) for v in dul.value_exprs("left_ref")] == ["self.lower_expr(expr.left)"] and [norm(v) for v in dul.value_exprs("right_ref")] == ["self.lower_expr(expr.right)"]
-    rep.check(ok, "C01-R4", "operands are lowered from expr.left / expr.right", f"left_ref <- {[norm(v) for v in dul.value_exprs('left_ref')]}", lb.loc())
+    clb = Canon(lb)
+    n_disp = 0
     for n in walk_local(lb.node):
         if isinstance(n, ast.Return) and isinstance(n.value, ast.Call) and call_name(n.value).startswith("_lower_") and len(n.value.args) >= 3 and norm(n.value.args[0]) == "expr":
-            rep.check(norm(n.value.args[1]) == "left_ref" and norm(n.value.args[2]) == "right_ref", "C01-R4", f"lower_binary_op -> {call_name(n.value)}(expr, left_ref, right_ref, ...)", norm(n.value)[:80], lb.loc(n))
+            n_disp += 1
+            la, ra = clb.text(n.value.args[1]), clb.text(n.value.args[2])
+            rep.check(la == "self.lower_expr(expr.left)" and ra == "self.lower_expr(expr.right)", "C01-R4", f"lower_binary_op -> {call_name(n.value)}(expr, <lowered expr.left>, <lowered expr.right>, ...)", f"{la} / {ra}", lb.loc(n))
+    rep.floor("C01-R4", "category dispatches in lower_binary_op", n_disp, 4)
     for mname in ("_lower_arithmetic_op", "_lower_arithmetic_like_op", "_lower_comparison_op"):
         m = el.methods[mname]
+        pnames = m.params
         for c in calls_in(m.node):
             if call_name(c) in ("arithmetic", "decider") and "ir_builder" in norm(c.func):
-                rep.check(norm(c.args[1]) == "left_ref" and norm(c.args[2]) == "right_ref", "C01-R4", f"{mname}: builder receives (left_ref, right_ref)", norm(c)[:90], m.loc(c))
+                rep.check(norm(c.args[1]) == pnames[2] and norm(c.args[2]) == pnames[3], "C01-R4", f"{mname}: builder receives its (left, right) parameters in order", norm(c)[:90], m.loc(c))
     b = repo.cls("IRBuilder")
     for mname in ("arithmetic", "decider"):
         m = b.methods[mname]
@@ -296,14 +299,14 @@ def run(repo: Repo, rep: Report, tier: str) -> None:
     ep = repo.cls("EntityPlacer")
     for mname in ("_place_arithmetic", "_place_single_condition_decider"):
         m = ep.methods[mname]
-        dum = DefUse(m)
-        lo = [norm(v) for v in dum.value_exprs("left_operand")]
-        ro = [norm(v) for v in dum.value_exprs("right_operand")]
-        ok = any("op.left" in s and "op.right" not in s for s in lo) and any("op.right" in s and "op.left" not in s for s in ro)
-        rep.check(ok, "C01-R4", f"{mname}: left_operand from op.left, right_operand from op.right", f"{lo} / {ro}", m.loc())
+        cm = Canon(m)
         c = calls_in(m.node, "create_and_add_placement")
-        ok = bool(c) and norm(kwarg(c[0], "left_operand")) == "left_operand" and norm(kwarg(c[0], "right_operand")) == "right_operand" and norm(kwarg(c[0], "operation")) in ("op.op", "op.test_op")
-        rep.check(ok, "C01-R4", f"{mname}: placement keys carry the operands and the node's operator", "", m.loc())
+        if not c:
+            rep.bad("C01-R4", f"{mname}: placement created", "create_and_add_placement missing", m.loc())
+            continue
+        lo, ro, opr = cm.text(kwarg(c[0], "left_operand")), cm.text(kwarg(c[0], "right_operand")), cm.text(kwarg(c[0], "operation"))
+        ok = "op.left" in lo and "op.right" not in lo and "op.right" in ro and "op.left" not in ro and opr in ("op.op", "op.test_op")
+        rep.check(ok, "C01-R4", f"{mname}: left_operand from op.left, right_operand from op.right, operation from the node", f"{lo} / {ro} / {opr}", m.loc(c[0]))
     em = repo.cls("PlanEntityEmitter")
     for fn in ("_configure_decider", "_configure_arithmetic"):
         for key, side, slot, node in side_flows(em.methods[fn]):
@@ -311,12 +314,14 @@ def run(repo: Repo, rep: Report, tier: str) -> None:
             if ss is not None:
                 rep.check(ss in (side, "either"), "C01-R4", f"{fn}: '{key}' feeds {slot}", "sides agree" if ss in (side, "either") else "operand sides crossed", em.methods[fn].loc(node))
     ca = em.methods["_configure_arithmetic"]
-    st = {norm(n.targets[0]): norm(n.value) for n in walk_local(ca.node) if isinstance(n, ast.Assign) and isinstance(n.targets[0], ast.Attribute) and norm(n.targets[0].value) == "entity"}
-    rep.check(st.get("entity.operation") == "operation" and st.get("entity.first_operand") == "left_operand" and st.get("entity.second_operand") == "right_operand", "C01-R4",
-              "arithmetic combinator: operation/first/second come from operation/left/right", str({k: v for k, v in st.items() if 'wires' not in k}), ca.loc())
+    cca = Canon(ca)
+    st = {norm(n.targets[0]): cca.text(n.value) for n in walk_local(ca.node) if isinstance(n, ast.Assign) and isinstance(n.targets[0], ast.Attribute) and norm(n.targets[0].value) == "entity"}
+    ok = st.get("entity.operation", "").startswith("props.get('operation'") and st.get("entity.first_operand") == "props.get('left_operand')" and st.get("entity.second_operand") == "props.get('right_operand')"
+    rep.check(ok, "C01-R4", "arithmetic combinator: operation/first/second come from the operation/left_operand/right_operand keys", str({k: v for k, v in st.items() if 'wires' not in k and 'output' not in k}), ca.loc())
     cd = em.methods["_configure_decider"]
+    ccd = Canon(cd)
     ck = [n for n in walk_local(cd.node) if isinstance(n, ast.Dict) and any(isinstance(k, ast.Constant) and k.value == "comparator" for k in n.keys)]
-    rep.check(bool(ck) and norm(ck[0].values[0]) == "operation", "C01-R4", "decider combinator: comparator comes from `operation`", norm(ck[0]) if ck else "", cd.loc())
+    rep.check(bool(ck) and ccd.text(ck[0].values[0]).startswith("props.get('operation'"), "C01-R4", "decider combinator: comparator comes from the `operation` key", ccd.text(ck[0].values[0]) if ck else "", cd.loc())
 
     # ---------------- R5 ---------------------------------------------------------------
     rep.rule("C01-R5", "the builder terms returned by _lower_logical_and/_or equal (L != 0) and/or (R != 0) on {-2..2}^2 (on {0,1}^2 for the boolean fast path); "
@@ -331,11 +336,11 @@ def run(repo: Repo, rep: Report, tier: str) -> None:
             rep.check(not bad, "C01-R5", f"{mname} ({'boolean operands' if boolean else 'general operands'}) computes the documented truth value",
                       f"term {t}" + (f"; e.g. L={bad[0][0]}, R={bad[0][1]} gives {bad[0][2]}, expected {bad[0][3]}" if bad else f"; {len(dom) ** 2} valuations"), m.loc())
     ibp = el.methods["_is_boolean_producer"]
-    # the boolean test must not accept producers that can leave {0,1}: a decider counts only with a constant int output, arithmetic only * of booleans or +0
-    ok = any(isinstance(n, ast.If) and norm(n.test) == "isinstance(op, IRDecider) and isinstance(op.output_value, int)" for n in walk_local(ibp.node)) \
-        and any(isinstance(n, ast.Return) and norm(n.value) == "op.value in (0, 1)" for n in walk_local(ibp.node)) \
-        and any(isinstance(n, ast.If) and norm(n.test) == "op.op == '*'" for n in walk_local(ibp.node)) and any(isinstance(n, ast.If) and norm(n.test) == "op.op == '+' and op.right == 0" for n in walk_local(ibp.node))
-    rep.check(ok, "C01-R5", "boolean-producer test accepts only constant-output deciders, 0/1 constants, products of booleans and `x + 0`", "four accepted shapes" if ok else "accepted shapes changed", ibp.loc())
+    cib = Canon(ibp)
+    tests = {cib.text(n.test).replace("self.ir_builder.get_operation(ref.source_id)", "OP") for n in walk_local(ibp.node) if isinstance(n, ast.If)}
+    rets = {cib.text(n.value).replace("self.ir_builder.get_operation(ref.source_id)", "OP") for n in walk_local(ibp.node) if isinstance(n, ast.Return) and n.value is not None}
+    ok = "isinstance(OP, IRDecider) and isinstance(OP.output_value, int)" in tests and "OP.value in (0, 1)" in rets and "OP.op == '*'" in tests and "OP.op == '+' and OP.right == 0" in tests
+    rep.check(ok, "C01-R5", "boolean-producer test accepts only constant-output deciders, 0/1 constants, products of booleans and `x + 0`", "four accepted shapes" if ok else f"accepted shapes changed: {sorted(tests)}", ibp.loc())
     ccc = el.methods["_collect_comparison_chain"]
     rec = [n for n in walk_local(ccc.node) if isinstance(n, ast.If) and any(call_name(c) == "_collect_comparison_chain" for s in n.body for c in ast.walk(s) if isinstance(c, ast.Call))]
     ok = bool(rec) and norm(rec[0].test) in ("isinstance(expr, BinaryOp) and expr.op == logical_op",)
@@ -344,16 +349,25 @@ def run(repo: Repo, rep: Report, tier: str) -> None:
     if rec and not ok:
         pass
     tf = el.methods["_try_fold_logical_chain"]
-    ct = [n for n in walk_local(tf.node) if isinstance(n, ast.Assign) and norm(n.targets[0]) == "combine_type"]
-    ok = bool(ct) and norm(ct[0].value) == "'and' if expr.op == '&&' else 'or'" and any(norm(c.args[1]) == "expr.op" for c in calls_in(tf.node, "_collect_comparison_chain"))
-    rep.check(ok, "C01-R5", "the folded decider combines its rows with the chain's own operator", norm(ct[0].value) if ct else "", tf.loc())
+    ctf = Canon(tf)
+    cfd_calls = calls_in(tf.node, "_create_folded_decider")
+    ok = bool(cfd_calls) and ctf.text(cfd_calls[0].args[1]) == "'and' if expr.op == '&&' else 'or'" and any(norm(c.args[1]) == "expr.op" for c in calls_in(tf.node, "_collect_comparison_chain"))
+    rep.check(ok, "C01-R5", "the folded decider combines its rows with the chain's own operator", ctf.text(cfd_calls[0].args[1]) if cfd_calls else "", tf.loc())
     dm = b.methods["decider_multi"]
-    ok = any(isinstance(n, ast.Call) and call_name(n) == "DeciderCondition" and norm(kwarg(n, "comparator")) == "comparator" and norm(kwarg(n, "first_operand")) == "left" and norm(kwarg(n, "second_operand")) == "right"
-             and norm(kwarg(n, "compare_type")) == "combine_type if i > 0 else 'or'" for n in walk_local(dm.node))
-    rep.check(ok, "C01-R5", "decider_multi keeps each row's comparator and operand order and applies the combine type from the second row on", "", dm.loc())
+    cdm = Canon(dm)
+    dcs = [n for n in walk_local(dm.node) if isinstance(n, ast.Call) and call_name(n) == "DeciderCondition"]
+    ok = False
+    if dcs:
+        n = dcs[0]
+        cmpt, fo, so, ct = (cdm.text(kwarg(n, k)) for k in ("comparator", "first_operand", "second_operand", "compare_type"))
+        base = "ELEM(enumerate(conditions))[1]"
+        ok = (cmpt, fo, so) == (base + "[0]", base + "[1]", base + "[2]") and ct == "combine_type if ELEM(enumerate(conditions))[0] > 0 else 'or'"
+    rep.check(ok, "C01-R5", "decider_multi keeps each row's (comparator, left, right) order and applies the combine type from the second row on", "", dm.loc())
     cfd = el.methods["_create_folded_decider"]
-    ok = any(isinstance(n, ast.Call) and call_name(n) == "append" and norm(n.args[0]) == "(comp.op, left_ref, right_ref)" for n in walk_local(cfd.node))
-    rep.check(ok, "C01-R5", "each folded row is (operator, left, right) of its comparison", "", cfd.loc())
+    ccf = Canon(cfd)
+    apps = [n for n in walk_local(cfd.node) if isinstance(n, ast.Call) and call_name(n) == "append" and isinstance(n.args[0], ast.Tuple) and len(n.args[0].elts) == 3]
+    ok = bool(apps) and [ccf.text(e) for e in apps[0].args[0].elts] == ["ELEM(comparisons).op", "self.lower_expr(ELEM(comparisons).left)", "self.lower_expr(ELEM(comparisons).right)"]
+    rep.check(ok, "C01-R5", "each folded row is (operator, lowered left, lowered right) of its comparison", str([ccf.text(e) for e in apps[0].args[0].elts]) if apps else "", cfd.loc())
 
     rep.rule("C01-R7", "the network an operand is told to read is the colour recorded for its own producer->consumer edge: spanning-tree routing may add colour entries under tree-edge keys but never replace one")
     from .shared import mst_colour_keys
